@@ -353,6 +353,27 @@ theorem mix_water_scaling (primary : String → Option String) (store : Int → 
     intro f w; unfold intensiveWater; rw [hfw, hpw, hnp, ← Rat.mul_assoc, mul_div_mul_right _ _ _ hk,
       mul_div_mul_right _ _ _ hk]
 
+/-- **fraction scaling.** Multiplying every mixing fraction by `κ > 0` gives `κ` times as much of the same mixture: equal
+intensive state, every extensive result (totals, total H and O, charge balance, water) times `κ`. In particular a
+solution mixed with itself in any amount is the same solution. -/
+theorem mix_fraction_scaling (primary : String → Option String) (store : Int → Option Sol) (comps : List (Int × Rat))
+    (a : Acc) (κ : Rat) (hκ : 0 < κ) :
+    addMix primary store (comps.map fun nf => (nf.1, nf.2 * κ)) (a.scale κ) = (addMix primary store comps a).scale κ := by
+  have hk : κ ≠ 0 := by grind
+  rw [addMix_eq, addMix_eq]
+  have he : (comps.map fun nf => (nf.1, nf.2 * κ)).isEmpty = comps.isEmpty := by cases comps <;> rfl
+  rw [he]
+  split
+  · rfl
+  · obtain ⟨hfw, hpw, hnp⟩ := sums_fscale store κ hκ comps ⟨0, 0, 0⟩ ⟨0, 0, 0⟩ (by simp) (by simp) rfl
+    rw [← sums_eq, ← sums_eq] at hfw hpw hnp
+    rw [List.length_map]
+    apply foldl_mixStep_fscale
+    intro f w; unfold intensiveWater; rw [hfw, hpw, hnp]
+    have e : f * κ * w = f * w * κ := by grind
+    simp only [pos_mul_iff _ _ hκ, e, mul_div_mul_right _ _ _ hk]
+
+
 end PhreeqcVerif.MixAlg
 
 /-! ## non-vacuity: concrete instances (evaluated by the kernel) -/
@@ -442,5 +463,11 @@ example : (addMix primEx (fun n => (storeEx n).map (·.scale 1000)) [(1, 1/4), (
     [("Ca", 15), ("Na", 5/2), ("S", 35/4)] ∧
     (addMix primEx (fun n => (storeEx n).map (·.scale 1000)) [(1, 1/4), (2, 3/4)] Acc.zero).tc = 10 * (1/7) + 30 * (6/7) := by
   decide +kernel
+
+/-- fractions ×4: four times as much of the same mixture -/
+example : (addMix primEx storeEx [(1, 1), (2, 3)] Acc.zero).totals.toList = [("Ca", 3/50), ("Na", 1/100), ("S", 7/200)] ∧
+    (addMix primEx storeEx [(1, 1), (2, 3)] Acc.zero).cb = 4 * (addMix primEx storeEx [(1, 1/4), (2, 3/4)] Acc.zero).cb ∧
+    (addMix primEx storeEx [(1, 1), (2, 3)] Acc.zero).tc = (addMix primEx storeEx [(1, 1/4), (2, 3/4)] Acc.zero).tc ∧
+    (addMix primEx storeEx [(1, 1/4), (2, 3/4)] Acc.zero).cb = 1/4000 := by decide +kernel
 
 end PhreeqcVerif.MixAlg
